@@ -15,7 +15,7 @@ func runC14(r *Run) {
 	r.Explain = "Static decision of structural necessary conditions of C14 (oracle restart equivalence): (R1) the replay in recacheAggregatorContext re-executes, for every block of the window and in the live order, 'params in force -> PrepareRoundEndBlock(block-1) -> FillPrice of that block's logged messages -> SealRound at that block's height', then prepares the current block; (R2) nothing process-local is read before it has been restored from the store; on every path to PrepareRoundEndBlock the context has params; (R3) the restart branch resets the caches before and marks them clean after the whole recache, and nowhere in between; (R4) every change the live node makes to the replay inputs is logged: accepted non-final submissions, validator-set and power changes (update flag on every mutating arm), params updates, and the caches are committed unconditionally every EndBlock; (R5) pruning keeps the store and its index in agreement and never drops the newest params older than the window; (R6) the singletons are reached only through their lazy accessors."
 	r.NotDec = []string{"equality of app hashes after a restart as a run-time fact", "what the replay cannot reconstruct by design (e.g. rounds finalised before the end of their window)", "CheckTx state after a restart"}
 	r.Assume = []string{"the store content at the restart height is the committed one", "PrepareRoundEndBlock/FillPrice/SealRound are deterministic functions of the context and their arguments (C08)"}
-	r.rule("C14.R1", "replay order and arguments in recacheAggregatorContext", 8)
+	r.rule("C14.R1", "replay order and arguments in recacheAggregatorContext", 9)
 	r.rule("C14.R2", "restore-before-use of process-local values; params present before the first round preparation", 3)
 	r.rule("C14.R3", "restart branch: caches reset before, marked clean after the recache, and not inside it", 4)
 	r.rule("C14.R4", "logging completeness: submissions, validator changes (flag on every mutating arm), params updates; unconditional commit in EndBlock; commit clears the flags", 8)
@@ -134,6 +134,17 @@ func runC14(r *Run) {
 			}
 			return true
 		})
+		okFrom := false
+		ast.Inspect(rv.Decl.Body, func(n ast.Node) bool {
+			if as, ok := n.(*ast.AssignStmt); ok && len(as.Lhs) == 1 && exprString(as.Lhs[0]) == cur && len(as.Rhs) == 1 && as.Pos() < loop.Pos() && !rv.nestedConditionally(as, rv.Decl.Body) {
+				t := sumTerms(stripConvDeep(as.Rhs[0]))
+				if t == "-MaxNonce+1+BlockHeight()" || t == "-MaxNonce+1+"+end || t == "-MaxNonce+1+ctx.BlockHeight()" {
+					okFrom = true
+				}
+			}
+			return true
+		})
+		r.check(okFrom, "C14.R1", "replay|window-start", rv.pos(rv.Decl), "the replay starts MaxNonce-1 blocks before the current height (the oldest block whose round can still be open)", cur+" is not initialised to height - MaxNonce + 1: submissions of the first block of a still open window are not replayed")
 		r.check(okTo, "C14.R1", "replay|until-current-height", rv.pos(rv.Decl), "the replay runs up to the current height", end+" is not ctx.BlockHeight()")
 	}
 	// ---- R2
@@ -647,4 +658,18 @@ func callersInitFirstD(w *World, fv *FnView, depth int) bool {
 		}
 	}
 	return n > 0
+}
+
+// stripConvDeep removes integer conversions anywhere in an additive expression.
+func stripConvDeep(e ast.Expr) ast.Expr {
+	e = stripParens(e)
+	switch x := e.(type) {
+	case *ast.BinaryExpr:
+		return &ast.BinaryExpr{X: stripConvDeep(x.X), Op: x.Op, Y: stripConvDeep(x.Y), OpPos: x.OpPos}
+	case *ast.CallExpr:
+		if id, ok := x.Fun.(*ast.Ident); ok && len(x.Args) == 1 && (id.Name == "int64" || id.Name == "uint64" || id.Name == "int" || id.Name == "uint32" || id.Name == "int32") {
+			return stripConvDeep(x.Args[0])
+		}
+	}
+	return e
 }
